@@ -1,6 +1,9 @@
 (* Properties/C02.v — Versioning: every live version stays addressable and latest is newest (M-META). *)
 From Verif Require Import Bytes Codec Md5 Meta MetaBasics MetaWitness.
+From Verif Require Import MetaPartsDefs MetaParts MetaPartsOps MetaPartsOwned.
 From Verif Require Import MetaRows1 MetaRows2 MetaRows3 MetaRows4 MetaRows5 MetaRows6 MetaRows7 MetaRows8 MetaRows9.
+From Verif Require Import MetaRows11 MetaRows13 MetaRows15.
+From Verif Require Import MetaNewest1 MetaNewest2 MetaNewest3 MetaNewest4 MetaNewest5.
 
 (* at most one current version per key, version ids unique per key, in every reachable state *)
 Theorem C02_reachable_unique_latest : forall ops,
@@ -132,4 +135,75 @@ Qed.
 Example C02_ex_delete_marker_hyps :
   snd (run [OMb wb; OVer wb VSuspended; OPut wb wk cA CRNone; ODel wb wk VRNone CRNone]) =
   [ROk; ROk; RPut VNull (mk_md5 cA); RDel (Some (VId 3)) true].
+Proof. vm_compute. reflexivity. Qed.
+
+(* … and in the Enabled state a key-only delete keeps the null version as well (nothing at all is destroyed) *)
+Theorem C02_enabled_key_only_delete_keeps_null : forall i hist s b k cr r,
+  (NoDup (map o_id (objs s)) /\ (forall x, In x (objs s) -> (o_id x < next_id s)%N)) /\
+  (unique_ok s = true /\ parts_unique_ok s = true) ->
+  option_map b_ver (find_bucket s b) = Some VEnabled -> find_version s b k VNull = Some r ->
+  exists r', find_version (fst (step i hist s (ODel b k VRNone cr))) b k VNull = Some r' /\
+    o_id r' = o_id r /\ o_etag r' = o_etag r /\ o_size r' = o_size r /\ o_dm r' = o_dm r /\
+    o_ctype r' = o_ctype r /\ o_created r' = o_created r /\
+    obj_parts (fst (step i hist s (ODel b k VRNone cr))) (o_id r') = obj_parts s (o_id r).
+Proof. exact delete_enabled_keeps_null_out. Qed.
+Print Assumptions C02_enabled_key_only_delete_keeps_null.
+
+(* ================= "latest is newest", the true part (Proofs/MetaNewest1..5) ================= *)
+
+(* PARTIAL STATEMENT pinning the defect region of C02_latest_is_newest_refuted: for every history and every key
+   (b,k), the current version of the key is the most recently WRITTEN completed row of the key, provided that no
+   operation of the history, evaluated in the state sp it is executed in, is one of:
+     (1) a PutObject / CopyObject to (b,k) while the bucket is not Enabled and the null version of the key exists
+         but is NOT the current version (the in-place overwrite then makes an old-created row current:
+         the witness promo_history does exactly this at its 7th operation);
+     (2) a CompleteMultipartUpload on (b,k) (the completed row keeps the upload's creation time).
+   Everything else is allowed: unversioned overwrites, appends (also in place), versioned puts, key-only and
+   version-id deletes WITH promotion by created_at, toggling the versioning state, all other keys.
+   The side condition is a decidable boolean, written out below. *)
+Theorem C02_latest_is_newest_partial : forall b k ops,
+  (forall p o rest, ops = p ++ o :: rest ->
+     match o with
+     | OPut b' k' _ _ | OCp _ _ _ b' k' =>
+         negb (bytes_eqb b' b && bytes_eqb k' k)
+         || match option_map b_ver (find_bucket (fst (run p)) b) with Some VEnabled => true | _ => false end
+         || match find_version (fst (run p)) b k VNull with
+            | None => true
+            | Some nr => match find_latest (fst (run p)) b k with
+                         | Some l => N.eqb (o_id l) (o_id nr)
+                         | None => false
+                         end
+            end
+     | OCpl b' k' _ _ _ => negb (bytes_eqb b' b && bytes_eqb k' k)
+     | _ => true
+     end = true) ->
+  forall r, find_latest (fst (run ops)) b k = Some r ->
+  forall r', In r' (objs (fst (run ops))) -> on_key b k r' = true -> completed r' = true ->
+  (o_written r' <= o_written r)%N.
+Proof. exact latest_is_newest_partial. Qed.
+Print Assumptions C02_latest_is_newest_partial.
+
+(* the refutation witness lies in the excluded region: its 7th operation (put in Suspended state) overwrites the
+   null version in place while version v4 is current *)
+Example C02_ex_promo_history_excluded :
+  promo_history = firstn 6 promo_history ++ OPut wb wk cC CRNone :: skipn 7 promo_history /\
+  good_op wb wk (fst (run (firstn 6 promo_history))) (OPut wb wk cC CRNone) = false.
+Proof. split; vm_compute; reflexivity. Qed.
+
+(* the side condition is satisfiable by a history with unversioned overwrites, an in-place append, versions, a
+   key-only delete, deletes by version id that promote by created_at, and a Suspended put onto a current null
+   version (good_from is the recursive form of the prefix condition: Proofs/MetaNewest5.good_from_prefixes) *)
+Example C02_ex_good_history :
+  good_from wb wk 0 [] init
+    [OMb wb; OPut wb wk cA CRNone; OPut wb wk cB CRNone; OApp wb wk cC None; OVer wb VEnabled;
+     OPut wb wk cA CRNone; OPut wb wk cB CRNone; ODel wb wk VRNone CRNone; ODel wb wk (VROp 7) CRNone;
+     ODel wb wk (VROp 6) CRNone; ODel wb wk (VROp 5) CRNone; OVer wb VSuspended; OPut wb wk cD CRNone;
+     OGet wb wk VRNone].
+Proof. vm_compute. repeat split. Qed.
+Example C02_ex_good_history_result :
+  nth_error (snd (run
+    [OMb wb; OPut wb wk cA CRNone; OPut wb wk cB CRNone; OApp wb wk cC None; OVer wb VEnabled;
+     OPut wb wk cA CRNone; OPut wb wk cB CRNone; ODel wb wk VRNone CRNone; ODel wb wk (VROp 7) CRNone;
+     ODel wb wk (VROp 6) CRNone; ODel wb wk (VROp 5) CRNone; OVer wb VSuspended; OPut wb wk cD CRNone;
+     OGet wb wk VRNone])) 13 = Some (RObj VNull (mk_md5 cD) 8 12001 None (Some cD)).
 Proof. vm_compute. reflexivity. Qed.
